@@ -26,10 +26,20 @@ def targs_of(ta_list):
 
 
 def control_rule(cc):
+    r = _control_rule1(cc.get('s') or '', cc)
+    # control wrappers nest: state_control< C >::type< Rule > is shuffle_states< state_control< C >::control< Rule >, rotate_right< 1 > >
+    import re
+    for _ in range(6):
+        if r and (re.match(r'^tao::pegtl::(shuffle_states|remove_first_state|remove_last_states|normal)<', r) or re.search(r'>::(control|state_handler|type)<', r)):
+            r = _control_rule1(r, None)
+        else: break
+    return r
+
+
+def _control_rule1(s, cc):
     """the rule a control class is instantiated for: the first argument of the last template argument list of Control< Rule >, also for controls that
     are member templates ( state_control< normal >::control< Rule >, must_if< Errors >::control< Rule > ); character literals may contain < > , '"""
-    s = cc.get('s') or ''
-    if not s.endswith('>'): return (cc['a'][0].get('s') if cc.get('a') else None)
+    if not s.endswith('>'): return (cc['a'][0].get('s') if cc and cc.get('a') else None)
     # forward scan: positions of top-level '<' that open an argument list, with character literals skipped
     depth = 0; i = 0; opens = []; n = len(s); commas = {}
     while i < n:
